@@ -22,6 +22,14 @@ structure Read where
   unguarded : List String
   deriving DecidableEq, Repr
 
+/-- an in-place write (subscript / augmented assignment, `out=`, `np.copyto`, `.fill`, a kernel that
+assigns into its parameter, ...) through a name that may alias the value stored under `target`
+(found by the alias analysis of `harness/extract_cache.py`; `via` is a description for the reader) -/
+structure InPlace where
+  target : Key
+  via : String
+  deriving DecidableEq, Repr
+
 structure Entry where
   cls : String
   name : String
@@ -31,6 +39,8 @@ structure Entry where
   memoSet : List Write       -- memo attributes (`_seq`, `_nnodes`, `_pit`) assigned a value
   memoReset : List Key
   mutates : List Comp
+  /-- in-place writes into values that live in the cache -/
+  inplace : List InPlace := []
   deriving DecidableEq, Repr
 
 /-- **Spec (hand-written)**: the components of the abstract state (`ds` = the network, `transform`,
@@ -64,6 +74,12 @@ def Entry.syncs (e : Entry) (k : Key) : Bool :=
 
 def Entry.drops (e : Entry) (k : Key) : Bool := e.pops.contains k || e.memoReset.contains k
 
+/-- the method may write in place into the value stored under `k` -/
+def Entry.writesInPlace (e : Entry) (k : Key) : Bool := e.inplace.any (·.target == k)
+
+/-- clause (6) of coherence: a value that lives in the cache is immutable -/
+def Entry.noInPlace (e : Entry) : Bool := e.inplace.isEmpty
+
 /-- the coherence condition on one table entry -/
 def Entry.coherent (e : Entry) : Bool :=
   -- (1) no stored cache value depends on a call argument
@@ -75,7 +91,9 @@ def Entry.coherent (e : Entry) : Bool :=
   -- (4) a mutator pops / resets / re-synchronises every key that depends on what it changes
   allKeys.all (fun k => !dependsOn k e.mutates || e.drops k || e.syncs k) &&
   -- (5) only known keys are ever stored
-  e.writes.all (fun w => allKeys.contains w.key) && e.memoSet.all (fun w => allKeys.contains w.key)
+  e.writes.all (fun w => allKeys.contains w.key) && e.memoSet.all (fun w => allKeys.contains w.key) &&
+  -- (6) no in-place write through a name that may alias a stored value (stored values are immutable)
+  e.noInPlace
 
 def Coherent (t : List Entry) : Bool := t.all Entry.coherent
 
@@ -105,6 +123,9 @@ structure Choice (V : Type) where
   doWrite : Key → Bool
   late : Key → Bool
   junk : Key → V
+  /-- what an in-place write through an alias of the value stored under a key leaves there
+  (`none`: the write does not happen on this path) -/
+  clobber : Key → Option V := fun _ => none
 
 variable {S V A : Type}
 
@@ -114,8 +135,8 @@ def writeVal (sem : Sem S V A) (e : Entry) (a : A) (ch : Choice V) (s : S) (ws :
     (if ch.late k then sem.recompute k (sem.mutate e a s) else sem.recompute k s)
   else ch.junk k
 
-/-- one call of method `e` with argument `a` -/
-def step (sem : Sem S V A) (e : Entry) (a : A) (ch : Choice V) (o : Obj S V) : Obj S V :=
+/-- the protocol part of one call (reads / writes / pops / resets of the cache *dictionary*) -/
+def stepCore (sem : Sem S V A) (e : Entry) (a : A) (ch : Choice V) (o : Obj S V) : Obj S V :=
   { s := sem.mutate e a o.s
     cache := fun k =>
       if e.syncs k then some (sem.recompute k (sem.mutate e a o.s))
@@ -123,6 +144,21 @@ def step (sem : Sem S V A) (e : Entry) (a : A) (ch : Choice V) (o : Obj S V) : O
       else if e.writes.any (·.key == k) && ch.doWrite k then some (writeVal sem e a ch o.s e.writes k)
       else if e.memoSet.any (·.key == k) && ch.doWrite k then some (writeVal sem e a ch o.s e.memoSet k)
       else o.cache k }
+
+/-- the stored *objects* are mutable: an in-place write of method `e` through an alias of the value
+stored under `k` replaces what is stored there by an arbitrary value (the dictionary is untouched:
+a key that holds nothing stays empty) -/
+def clobbered (e : Entry) (ch : Choice V) (k : Key) (c : Option V) : Option V :=
+  if e.writesInPlace k then
+    match c, ch.clobber k with
+    | some _, some v' => some v'
+    | c, _ => c
+  else c
+
+/-- one call of method `e` with argument `a`: the protocol part, then the in-place writes -/
+def step (sem : Sem S V A) (e : Entry) (a : A) (ch : Choice V) (o : Obj S V) : Obj S V :=
+  { s := sem.mutate e a o.s
+    cache := fun k => clobbered e ch k ((stepCore sem e a ch o).cache k) }
 
 /-- what a query of quantity `k` returns on object `o` -/
 def query (sem : Sem S V A) (o : Obj S V) (k : Key) : V :=
